@@ -155,6 +155,9 @@ def run(tier, seed):
         (corner("awk", prefix=A.DG, name="awk-dmm-first"), ph, 3),
         (corner("unit8", prefix=A.GRL, name="unit8-two-bases"), A.phases(l="l"), 3),
         (corner("real", prefix=A.GG, name="real-two-globals"), A.two_globals(), 3),
+        # the mirror image of the first world (which atom is shifted last must not matter), with 3 atoms and integer ids
+        (corner("unit", prefix=A.GR1, qubits=3, qid_alias={"q0": 2, "q1": 0, "q2": 1}, name="unit-mirror-int-ids"),
+         A.phases(eom=False), 3),
     ]
     if tier == "thorough":
         plan = [(w, a, d + 1) for w, a, d in plan]
